@@ -10,6 +10,7 @@ import FV.Model.InitAlloc
   reply:  ok <ncells> (| cx cy w h region fixed hard <k> (name ratio)* depth)* # bbox cx cy w h
              # <nstats> (| name area cx cy)*
      or   err:Assert | err:ZeroDiv
+    <mode> ia <epsA> <includeZero> <ncells> (rect depth)* <nmod> module*     (same reply)
     <mode> psum <n> x*        → Python `sum()` of the floats
     <mode> eps6               → the literal 1e-6
 -/
@@ -51,6 +52,13 @@ def initAllocOp (sqrt : α → α) (op : String) (args : List String) : Option S
       let mods ← pList (pModule (α := α))
       pure (e, iz, refi, fixd, mods)) args).map fun (e, iz, refi, fixd, mods) =>
         showIAlloc (createInitialAllocation sqrt e iz mods refi fixd)
+  | "ia" =>
+    (runP (do
+      let e ← pSc (α := α); let iz ← pBool
+      let cells ← pList (do let r ← pRect (α := α); let d ← pNat; pure (r, d))
+      let mods ← pList (pModule (α := α))
+      pure (e, iz, cells, mods)) args).map fun (e, iz, cells, mods) =>
+        showIAlloc (allocationThenInitial sqrt e iz mods cells)
   | "psum" => (runP (pList (pSc (α := α))) args).map fun xs => sc (pySum xs)
   | "eps6" => (runP (pure ()) args).map fun _ => sc (eps6 : α)
   | _ => none
